@@ -1,6 +1,10 @@
-(* C18 — property theorems only: the laws of the in-memory object store (model/Store.v) that the file-system backend
-   is compared with on every run.  They hold for every state, key, content and history. *)
-From S3V Require Import lib.Bytes model.Range model.Store proofs.RangeProofs proofs.StoreProofs.
+(* C18 — property theorems only.  Two layers: the laws of the in-memory object store (model/Store.v), for every state, key, content
+   and history; and the refinement: the model of the file-system backend itself (model/FsImpl.v: directories, object files,
+   metadata / internal-info / upload-owner / part files, the temp-file write ending in a rename, the directory walk), run on any
+   history over valid bucket names, ordinary keys none of which is a directory prefix of another, and fresh upload ids, gives
+   exactly the answers of the store.  The file-system model is compared with the code on every run answer by answer, changed
+   path by changed path, and tree by tree. *)
+From S3V Require Import lib.Bytes model.Range model.Store model.FsPath model.FsImpl proofs.RangeProofs proofs.StoreProofs proofs.FsRefineBase proofs.FsRefine proofs.FsFresh.
 From Coq Require Import Sorting.Sorted Sorting.Permutation.
 Open Scope N_scope.
 
@@ -79,9 +83,36 @@ Theorem C18_upload_owner_only : forall mp s alias cred,
   (forall u, alookup N.eqb alias (s_uploads s) = Some u -> opt_beq (u_owner u) cred = false) ->
   (forall n d f, (n <= 10000)%Z -> step mp s (MpuPart alias cred n d f) = (s, err "AccessDenied"))
   /\ (forall bk k ns, step mp s (MpuComplete alias cred bk k ns) = (s, err "AccessDenied"))
-  /\ (forall bk k, step mp s (MpuAbort alias cred bk k) = (s, err "AccessDenied")).
+  /\ (forall bk k, step mp s (MpuAbort alias cred bk k) = (s, err "AccessDenied"))
+  /\ (forall n sb sk r, step mp s (MpuPartCopy alias cred n sb sk r) = (s, err "AccessDenied")).
 Proof. exact upload_owner_only. Qed.
 Print Assumptions C18_upload_owner_only.
+(* a part copied from an object (UploadPartCopy) is the source, or exactly the bytes first..last of x-amz-copy-source-range, which
+   must lie inside the source; it replaces the part of that number, leaves the other parts and every object alone *)
+Theorem C18_part_copy_is_the_range : forall mp s alias cred n sb sk range,
+  is_ok (snd (step mp s (MpuPartCopy alias cred n sb sk range))) = true ->
+  exists u ob d,
+    owned s alias cred = Some u /\ lookup s sb sk = Some ob
+    /\ match range with
+       | None => d = o_data ob
+       | Some h => exists st en, parse_copy_range h (N.of_nat (length (o_data ob))) = inl (st, en)
+                                 /\ st < en /\ en <= N.of_nat (length (o_data ob)) /\ d = slice (o_data ob) st en
+       end
+    /\ (exists u', alookup N.eqb alias (s_uploads (fst (step mp s (MpuPartCopy alias cred n sb sk range)))) = Some u'
+                   /\ alookup zeqb n (u_parts u') = Some d
+                   /\ (forall n', n' <> n -> alookup zeqb n' (u_parts u') = alookup zeqb n' (u_parts u)))
+    /\ s_objects (fst (step mp s (MpuPartCopy alias cred n sb sk range))) = s_objects s.
+Proof. exact part_copy_is_the_range. Qed.
+Print Assumptions C18_part_copy_is_the_range.
+Example C18_part_copy_examples :
+  map (fun r => match parse_copy_range r 10 with inl (st, en) => b "ok:" ++ show_N st ++ [45] ++ show_N en | inr e => b e end)
+      [b "bytes=0-9"; b "bytes=2-"; b "bytes=+3-4"; b "bytes=5-2"; b "bytes=0-10"; b "bytes=-5"; b "bytes=1-2-3"; b "0-1"; b "bytes= 1-2"]
+  = [b "ok:0-10"; b "ok:2-10"; b "ok:3-5"; b "InvalidRange"; b "InvalidRange"; b "InvalidArgument"; b "InvalidArgument"; b "InvalidArgument";
+     b "InvalidArgument"]
+  /\ match parse_copy_range (b "bytes=0-") 0 with inr e => b e | inl _ => [] end = b "InvalidRange".
+Proof. vm_compute. split; reflexivity. Qed.
+Print Assumptions C18_part_copy_examples.
+
 Theorem C18_created_upload_owner : forall mp s alias cred bk k m,
   has_bucket s bk = true ->
   let s' := fst (step mp s (MpuCreate alias cred bk k m)) in
@@ -126,3 +157,76 @@ ok
 err:NoSuchKey".
 Proof. vm_compute. reflexivity. Qed.
 Print Assumptions C18_example.
+
+(* ---------- the file-system backend refines the store ---------- *)
+(* one operation: same answer, related states (R: buckets = directories of the root, an object = its file + its metadata side file,
+   an upload = its owner file + its part files + its metadata file; keys of the universe only; no duplicates) *)
+Theorem C18_fs_step_refines_store : forall U,
+  (forall k, In k U -> ordinary k = true) -> (forall k k', In k U -> In k' U -> ~ proper_prefix (comps k) (comps k')) ->
+  forall mp t s o, R U t s -> dom U o -> fresh_for t o ->
+  snd (fs_step mp t o) = snd (step mp s o) /\ R U (fst (fs_step mp t o)) (fst (step mp s o)).
+Proof. exact fs_step_refines. Qed.
+Print Assumptions C18_fs_step_refines_store.
+
+(* every history, from any related pair of states *)
+Theorem C18_fs_history_refines_store : forall U,
+  (forall k, In k U -> ordinary k = true) -> (forall k k', In k U -> In k' U -> ~ proper_prefix (comps k) (comps k')) ->
+  forall mp ops t s, R U t s -> hist_ok U mp t ops ->
+  snd (fs_run mp t ops) = snd (run mp s ops) /\ R U (fst (fs_run mp t ops)) (fst (run mp s ops)).
+Proof. exact fs_run_refines. Qed.
+Print Assumptions C18_fs_history_refines_store.
+
+(* from the empty root directory, with the side conditions decided by computation (the check evaluates them on every history it runs) *)
+Theorem C18_fs_answers_as_the_store : forall U mp ops,
+  universe_ok U = true -> hist_okb U mp empty_fs ops = true -> fs_run_outputs mp ops = run_outputs mp ops.
+Proof. exact fs_refines_store_checked. Qed.
+Print Assumptions C18_fs_answers_as_the_store.
+
+(* the same with syntactic side conditions only: operations over valid bucket names and keys of the universe (dom), new upload ids
+   pairwise distinct - the tree mentions an upload id only after its MpuCreate *)
+Theorem C18_fs_refines_store : forall U mp ops,
+  (forall k, In k U -> ordinary k = true) -> (forall k k', In k U -> In k' U -> ~ proper_prefix (comps k) (comps k')) ->
+  Forall (dom U) ops -> NoDup (created ops) -> fs_run_outputs mp ops = run_outputs mp ops.
+Proof. exact fs_refines_store_syntactic. Qed.
+Print Assumptions C18_fs_refines_store.
+Theorem C18_upload_ids_appear_only_when_created : forall mp t o a,
+  mentions (fst (fs_step mp t o)) a = true -> mentions t a = true \/ creates o a.
+Proof. exact step_mentions. Qed.
+Print Assumptions C18_upload_ids_appear_only_when_created.
+
+(* the write step can always be taken inside such a universe, and only there: a key below another key's file fails as the code does *)
+Theorem C18_write_never_blocked_in_universe : forall U,
+  (forall k k', In k U -> In k' U -> ~ proper_prefix (comps k) (comps k')) ->
+  forall t s bk k, R U t s -> check_bucket_name bk = true -> In k U -> can_place t (bk :: comps k) = true.
+Proof. intros U H t s bk k. exact (can_place_universe U H t s bk k). Qed.
+Print Assumptions C18_write_never_blocked_in_universe.
+Example C18_prefix_keys_are_outside :
+  fs_run_outputs 4 [CreateBucket (b "bkt"); Put (b "bkt") (b "k/x") (b "1") None [] false; Put (b "bkt") (b "k") (b "2") None [] false;
+                    Put (b "bkt") (b "k/x/y") (b "3") None [] false]
+  = b "ok
+ok:""c4ca4238a0b923820dcc509a6f75849b""
+err:InternalError
+err:InternalError"
+  /\ universe_ok [b "k/x"; b "k"] = false.
+Proof. vm_compute. split; reflexivity. Qed.
+Print Assumptions C18_prefix_keys_are_outside.
+
+(* the path of an ordinary key is the bucket directory followed by the key's pieces *)
+Theorem C18_ordinary_key_path : forall bk k, check_bucket_name bk = true -> ordinary k = true -> object_path bk k = Some (bk :: comps k).
+Proof. exact object_path_ordinary. Qed.
+Print Assumptions C18_ordinary_key_path.
+
+(* non-vacuity: the premises hold of a history through every kind of operation, and the two models print the same *)
+Example C18_refinement_example :
+  let U := [b "k/x"; b "m"; b "c"; b "k/y/z"] in
+  let h := [CreateBucket (b "bkt"); CreateBucket (b "other-bkt"); Put (b "bkt") (b "k/x") (b "hello world") (Some [(b "x", b "1")]) [] false;
+            Put (b "bkt") (b "k/y/z") (b "zzz") None [] false; Get (b "bkt") (b "k/x") (Some (b "bytes=-5")); List (b "bkt") (Some (b "k")) None;
+            MpuCreate 0 (Some (b "alice")) (b "bkt") (b "m") (Some [(b "up", b "load")]); MpuPart 0 (Some (b "alice")) 1 (b "abcd") false;
+            MpuPart 0 (Some (b "bob")) 2 (b "zz") false; MpuPartCopy 0 (Some (b "alice")) 2 (b "bkt") (b "k/x") (Some (b "bytes=6-"));
+            MpuComplete 0 (Some (b "alice")) (b "bkt") (b "m") [1; 2]%Z; Get (b "bkt") (b "m") None; Copy (b "other-bkt") (b "c") (b "bkt") (b "m");
+            Delete (b "bkt") (b "k/x"); DeleteMany (b "bkt") [b "k/y/z"; b "c"]; ListBuckets; DeleteBucket (b "other-bkt"); Head (b "other-bkt") (b "c");
+            MpuCreate 1 None (b "bkt") (b "c") None; MpuAbort 1 None (b "bkt") (b "c")] in
+  universe_ok U = true /\ hist_okb U 4 empty_fs h = true /\ fs_run_outputs 4 h = run_outputs 4 h
+  /\ length (f_objs (fst (fs_run 4 empty_fs h))) = 1%nat.
+Proof. vm_compute. repeat split; reflexivity. Qed.
+Print Assumptions C18_refinement_example.
